@@ -20,7 +20,7 @@ evaluated — stencil points included —, every callback state and the result a
 theorem evals_in_box_fd (u : User α ε) (o : Oracles α δ) (c : Cfg α) (sch : Scheme) (hOf : α → α)
     (hfd : ∀ x f, u.fdPts x f = points sch hOf x c.lb c.ub)
     (hbox : BoxOk c.lb c.ub) (hn : c.x0.length = c.lb.length)
-    (hxbar : ∀ x g m, (o.xbar x g m).length = x.length)
+    (hxbar : ∀ x g m, InBox c.lb c.ub x → (o.xbar x g m).length = x.length)
     (hck : ∀ ck, c.checkpoint = some ck → ck.x = clip c.x0 c.lb c.ub)
     (r : Result α) (s : St α) (h : minimize u o c = .ok (r, s)) :
     (∀ call ∈ s.sf.log, call.kind ≠ .ftarget → call.kind ≠ .gtol → InBox c.lb c.ub call.arg) ∧
